@@ -1,6 +1,7 @@
 package verifsim
 
 import (
+	"bytes"
 	"crypto/ed25519"
 	"errors"
 	"fmt"
@@ -317,6 +318,10 @@ func resolveUpdate(w *World, op Op, st Stored) *Request {
 	case "bytes":
 		r.CP = mutateBytes(r.CP, op.MV)
 		r.SigValid = -1
+	case "trailing_nl":
+		// the valid note followed by blank lines: not a note any more (its signature block does not end the text)
+		r.CP = append(append([]byte{}, r.CP...), bytes.Repeat([]byte("\n"), 1+int(op.MV%3))...)
+		r.SigValid = 0
 	case "unknownlog":
 		r.Known = false
 		r.LogID = LogID(fmt.Sprintf("unknown-%d", op.MV))
